@@ -905,11 +905,39 @@ def f18_cases(tier):
     ]
 
 
+_WARM = False
+
+
+def _warm_up():
+    """Compile the numba kernels of every code path (passive interfaces, pure Fock oracle)
+    before a part's wall-clock budget starts: a fresh checkout (sensitivity worktree) has a
+    cold numba cache, and on a loaded machine the compilation alone used to eat the budget."""
+    global _WARM
+    if _WARM:
+        return
+    _WARM = True
+    from lib.harness import Ctx
+
+    scratch = Ctx(PID, "quick", 0, 0, 1, {})
+    warm = [f15_cases("quick")[3], f16_cases("quick")[1], f19_cases("quick")[1],
+            _case(3, [2, 1, 0], [{"op": "I", "modes": [0, 1, 2], "seed": 1, "ukind": "haar"},
+                                 {"op": "PS", "modes": [1], "counts": [1]}]),
+            _case(3, [2, 1, 0], [{"op": "I", "modes": [0, 1, 2], "seed": 1, "ukind": "haar"}],
+                  {"kind": "scalar", "lam": 0.5})]
+    for case in warm:
+        try:
+            evaluate(case, scratch)
+        except Violation:
+            pass  # a violation here is found again, and reported, by the parts themselves
+
+
 def parts(tier):
+    _warm_up()
+    # the budget is a cap for loaded machines; a quiet machine needs about 60-90 s
     out = [
         Part("main", prop_main, strategy=main_case(tier),
              examples={"quick": 640, "thorough": 12000},
-             budget_s={"quick": 150, "thorough": 3000}),
+             budget_s={"quick": 420, "thorough": 3000}),
     ]
     if not SKIP_KNOWN:
         out += [
